@@ -137,7 +137,6 @@ func (t *FnTrans) binop(op token.Token, a, b Val) Val {
 		}
 	}
 	if w, ok := isFloat(ty); ok {
-		_ = w
 		switch op {
 		case token.ADD:
 			return scalar(ty, sx("fp.add", "RNE", a.S, b.S))
@@ -146,6 +145,11 @@ func (t *FnTrans) binop(op token.Token, a, b Val) Val {
 		case token.MUL:
 			return scalar(ty, sx("fp.mul", "RNE", a.S, b.S))
 		case token.QUO:
+			if t.con != nil && t.con.AbstractFloatDiv {
+				srt := t.mode.scalarSort(ty)
+				f := t.declareFun(fmt.Sprintf("fpdiv.abs%d", w), []string{srt, srt}, srt)
+				return scalar(ty, sx(f, a.S, b.S))
+			}
 			return scalar(ty, sx("fp.div", "RNE", a.S, b.S))
 		case token.LSS:
 			return scalar(types.Typ[types.Bool], sx("fp.lt", a.S, b.S))
